@@ -366,9 +366,13 @@ def run(prop, tier, seed, replay=None):
     rep = Report(prop, tier, seed, level)
     thorough = tier == "thorough"
     # (MC_Build_c1819.cfg - two threads AND faults - has a counter-example that lies outside both statements: see DESIGN 12.4)
-    cfgs = ["MC_Build_c18.cfg"] if prop == "C18" else ["MC_Build_c19.cfg", "MC_Build_c19_3.cfg"]
+    # (MC_Build_c19_peek.cfg: both threads read the signature before each call, the analysis being published when complete;
+    #  MC_Build_c19_peek_pinned.cfg - analysis assigned empty, then refilled in place - is the documented counter-example)
+    cfgs = ["MC_Build_c18.cfg"] if prop == "C18" else ["MC_Build_c19.cfg", "MC_Build_c19_3.cfg", "MC_Build_c19_peek.cfg"]
     if thorough:
         cfgs.append("MC_Build_thorough18.cfg" if prop == "C18" else "MC_Build_thorough19.cfg")
+        if prop == "C19":
+            cfgs.append("MC_Build_thorough19_peek.cfg")
     for cfg in cfgs:
         mc = tlc.run_tlc("Build", cfg, timeout=1800)
         rep.add_tlc(mc, f"model check Build.tla {cfg} (AnswersCorrect, EachAsAlone, FinalStateCorrect, RecoversAfterRemoval)")
